@@ -456,6 +456,52 @@ func (c *Ctx) ruleUTF16() {
 							return true
 						}
 					}
+					// a package-level []byte{0} that nothing in the library writes
+					if ld, isLd := call.Call.Args[1].(*ssa.UnOp); isLd && ld.Op == token.MUL {
+						if g, isG := ld.X.(*ssa.Global); isG && g.Pkg != nil && c.P.InModule(g.Pkg.Func("init")) {
+							one, writes := false, 0
+							for _, m := range g.Pkg.Members {
+								mf, isF := m.(*ssa.Function)
+								if !isF {
+									continue
+								}
+								for _, ff := range withAnon(mf) {
+									instrsOf(ff, func(j ssa.Instruction) {
+										if st, isSt := j.(*ssa.Store); isSt && st.Addr == ssa.Value(g) {
+											writes++
+											if sl, isSl := st.Val.(*ssa.Slice); isSl {
+												if a, isA := sl.X.(*ssa.Alloc); isA {
+													if arr, isArr := a.Type().Underlying().(*types.Pointer).Elem().Underlying().(*types.Array); isArr && arr.Len() == 1 {
+														zero := true
+														for _, r := range *a.Referrers() {
+															if ia, isIA := r.(*ssa.IndexAddr); isIA {
+																for _, rr := range *ia.Referrers() {
+																	if est, isE := rr.(*ssa.Store); isE {
+																		if k, isK := ir.ConstInt(est.Val); !isK || k != 0 {
+																			zero = false
+																		}
+																	}
+																}
+															}
+														}
+														one = zero
+													}
+												}
+											}
+										}
+									})
+								}
+							}
+							if one && writes == 1 {
+								return true
+							}
+						}
+					}
+					if elems, isLit := literalElems(call.Call.Args[1]); isLit && len(elems) == 1 {
+						if k, isK := ir.ConstInt(elems[0]); isK && k == 0 {
+							return true
+						}
+					}
 					return constBytesEqual(call.Call.Args[1], "\x00")
 				}
 				if call, isCall := ce.Cond.(*ssa.Call); isCall && ce.Truth && ir.CallID(call) == "strings.HasSuffix" {
